@@ -1,9 +1,39 @@
-(** C13 — placeholder until SimpProofs lands in this round. *)
-From Coq Require Import ZArith List Bool String.
-From Mx Require Import Expr Simp.
+(** C13 — simplifier output is canonical: idempotent, order-insensitive, seed-independent.  Property theorems only.
+    Proved on the model (Simp.v, tied to expression_helper.py by exact-tree correspondence):
+      (fixpoint)   for ALL trees, every result of the simplifier is a fixpoint of its own rewriting step at the root: applying
+                   _expr_simp once more returns an == expression;
+      (order)      the canonical ordering of operands is a permutation of its input whatever the input order (so no operand is
+                   lost or duplicated by sorting), and on well-formed trees operand order does not influence the VALUE of the result;
+      (fuel)       two successful runs of the model return the same tree whatever their fuel.
+    NOT proved: idempotence below the root (that the operands of the result are themselves left unchanged by a second pass),
+    that permuted or re-associated operand lists give the IDENTICAL tree (needs injectivity of key_expr on the operands, which
+    fails across widths), and independence from PYTHONHASHSEED (a property of the implementation's dict/set iteration):
+    these are decided by runs of the implementation (harness/p_c13.py: second pass, all permutations / re-associations of up to
+    5 operands, several hash seeds) against the model. *)
+From Coq Require Import ZArith List Bool String Permutation.
+From Mx Require Import Expr Simp SimpProofs SimpFix MachineProofs.
 Import ListNotations.
 Open Scope Z_scope.
-Theorem C13_example_idem : simp 10 (EOp "+" [EId "a" 8 false false; EId "b" 8 false false])
-  = Ok (EOp "+" [EId "a" 8 false false; EId "b" 8 false false]).
-Proof. vm_compute. reflexivity. Qed.
-Print Assumptions C13_example_idem.
+
+Theorem C13_result_is_fixpoint_of_the_step : forall fuel e r, simp fuel e = Ok r -> exists r1, simp1 r = Ok r1 /\ expr_eqb r1 r = true.
+Proof. exact simp_result_is_step_fixpoint. Qed.
+Print Assumptions C13_result_is_fixpoint_of_the_step.
+
+Theorem C13_canonical_order_is_a_permutation : forall l, Permutation (canonize_expr_list l) l.
+Proof. exact (sort_by_perm key_expr). Qed.
+Print Assumptions C13_canonical_order_is_a_permutation.
+
+Theorem C13_operand_order_does_not_change_the_value : forall (Q : string -> Z -> bool -> bool -> bool) op k args args' fuel r r',
+  aop_of op = Some k -> Permutation args args' -> wf Q (EOp op args) = true -> wf Q (EOp op args') = true ->
+  simp fuel (EOp op args) = Ok r -> simp fuel (EOp op args') = Ok r' ->
+  size r = size r' /\ forall rho mu iota, eval rho mu iota r = eval rho mu iota r'.
+Proof. exact operand_order_value. Qed.
+Print Assumptions C13_operand_order_does_not_change_the_value.
+
+Theorem C13_successful_runs_agree : forall f f' e r r', simp f e = Ok r -> simp f' e = Ok r' -> r = r'.
+Proof. exact simp_deterministic_in_fuel. Qed.
+Print Assumptions C13_successful_runs_agree.
+
+Example C13_nonvacuous : simp 10 (EOp "+" [EId "b" 8 false false; EId "a" 8 false false]) = Ok (EOp "+" [EId "a" 8 false false; EId "b" 8 false false]) /\
+                         simp 10 (EOp "+" [EId "a" 8 false false; EId "b" 8 false false]) = Ok (EOp "+" [EId "a" 8 false false; EId "b" 8 false false]).
+Proof. vm_compute. split; reflexivity. Qed.
